@@ -146,7 +146,7 @@ def forms_of(rng, sig, binding, n=3):
     return forms
 
 
-def run_sessions(d, module_name, funcs, segments, compress=False, mmap_mode=None, timeout=180, recache=None):
+def run_sessions(d, module_name, funcs, segments, compress=False, mmap_mode=None, timeout=180, recache=None, verbose=0):
     """segments: list of dict(hashseed, steps); each runs in a fresh process on the same cache directory.
     Returns list of per-segment results (None on failure) and raw run info."""
     src = module_source(funcs)
@@ -157,7 +157,7 @@ def run_sessions(d, module_name, funcs, segments, compress=False, mmap_mode=None
         cf, of = os.path.join(d, f"seg{si}.json"), os.path.join(d, f"out{si}.json")
         with open(cf, "w") as f:
             json.dump(dict(module=module_name, funcs=[dict(name=x["name"], kind=x["kind"], ignore=x["ignore"]) for x in funcs],
-                           steps=seg["steps"], dir=d, compress=compress, recache=recache), f)
+                           steps=seg["steps"], dir=d, compress=compress, recache=recache, verbose=verbose), f)
         r = harness.run_py([SESSION, cf, of], timeout=timeout, hashseed=seg.get("hashseed", "0"), result_file=of, cwd=d)
         outs.append((r["result"], r))
     return outs
